@@ -40,7 +40,7 @@ def time_of(cfg, i):
 def configs(draw, wrappers=("interval",), allow_cache0=True, allow_dt=True, allow_tol=True, allow_halfway=True,
             shapes=None, levy=None, allow_user=True, max_pieces=4000, dtypes=("float64", "float32"), lattice=True):
     wrapper = draw(st.sampled_from(list(wrappers)))
-    t0 = draw(st.sampled_from([0.0, 0.0, -1.0, 0.25, 3.0]))
+    t0 = draw(st.sampled_from([0.0, 0.0, -1.0, -0.5, 0.25, 3.0]))
     span = draw(st.sampled_from([1.0, 1.0, 0.5, 2.0, 10.0]))
     if wrapper == "path":
         span = 1.0
@@ -113,16 +113,28 @@ def op_lists(draw, cfg, min_ops=1, max_ops=12, max_sweep=40, allow_zero=True, al
     n = cfg["grid"]
     ops = []
     k = draw(st.integers(min_ops, max_ops))
-    kinds = ["q", "q", "q", "sweep", "sweepback", "zoom", "req", "trial", "trial_re", "pad100"]
+    kinds = ["q", "q", "q", "sweep", "sweepback", "zoom", "req", "trial", "trial_re", "lastpiece", "pad100"]
     if allow_zero:
         kinds.append("zero")
     if allow_point:
         kinds += ["pt", "pt"] if cfg["wrapper"] in ("path", "tree") else ["pt"]
+    special = [n // 2] if n % 2 == 0 else []
+    if cfg["t0"] < 0 < cfg["t1"]:
+        z = -cfg["t0"] / (cfg["t1"] - cfg["t0"]) * n
+        if abs(z - round(z)) < 1e-9 and time_of(cfg, int(round(z))) == 0.0:
+            special.append(int(round(z)))
     for _ in range(k):
         kind = draw(st.sampled_from(kinds))
         if kind == "q":
             i = draw(st.integers(0, n - 1))
             j = draw(st.integers(i + 1, n))
+            if special and draw(st.sampled_from([False, False, True])):
+                # one end point at a special time: the middle of the interval or the time 0.0 exactly
+                k = draw(st.sampled_from(special))
+                if k < j and draw(st.booleans()):
+                    i = k
+                elif k > i:
+                    j = k
             ops.append(["q", i, j])
         elif kind in ("sweep", "sweepback"):
             cnt = draw(st.integers(2, max_sweep))
@@ -158,6 +170,11 @@ def op_lists(draw, cfg, min_ops=1, max_ops=12, max_sweep=40, allow_zero=True, al
             # from the cached left half, one new cache entry each), otherwise unit cells starting at that grid index
             ops.append(["trial_re", i, j, draw(st.sampled_from(ks)),
                         draw(st.one_of(st.just(-1), st.just(-1), st.integers(0, n - 1)))])
+        elif kind == "lastpiece":
+            # [b,c], then [a,c] (answered from several stored pieces, [b,c] being the last), then [b,c] again at once
+            a_ = draw(st.integers(0, n - 2))
+            b_ = draw(st.integers(a_ + 1, n - 1))
+            ops.append(["lastpiece", a_, b_, draw(st.integers(b_ + 1, n))])
         elif kind == "zero":
             ops.append(["zero", draw(st.integers(0, n))])
         elif kind == "pt":
@@ -231,6 +248,11 @@ def expand(case):
                     c = (start + s_) % cfg["grid"]
                     add(c, c + 1)
             add(i, j)
+        elif kind == "lastpiece":
+            _, a_, b_, c_ = op
+            add(b_, c_)
+            add(a_, c_)
+            add(b_, c_)
         elif kind == "zero":
             add(op[1], op[1])
         elif kind == "pt":             # point evaluation: represented as (None, t)
@@ -257,7 +279,7 @@ def build(cfg, torchsde, torch):
     if wrapper in ("interval", "reverse", "reverse2"):
         kw = dict(t0=cfg["t0"], t1=cfg["t1"], size=shape, dtype=dtype, entropy=cfg["entropy"],
                   cache_size=cfg["cache_size"], levy_area_approximation=cfg["levy"], tol=cfg["tol"],
-                  halfway_tree=cfg["halfway"], W=W, H=H)
+                  halfway_tree=cfg["halfway"], W=None if W is None else W.clone(), H=None if H is None else H.clone())
         if cfg["dt"] is not None:
             kw["dt"] = cfg["dt"]
         if "pool_size" in cfg:
@@ -273,7 +295,7 @@ def build(cfg, torchsde, torch):
             base = torchsde._brownian.ReverseBrownian(torchsde._brownian.ReverseBrownian(interval))
     elif wrapper == "path":
         w0 = torch.randn(shape, dtype=dtype, generator=g) + 2.0
-        obj = torchsde.BrownianPath(t0=cfg["t0"], w0=w0)
+        obj = torchsde.BrownianPath(t0=cfg["t0"], w0=w0.clone())
         interval = obj._interval
         base = obj
     elif wrapper == "tree":
@@ -281,7 +303,8 @@ def build(cfg, torchsde, torch):
         w1 = (w0 + W) if W is not None else None
         if W is not None:
             W = w1 - w0          # the increment the caller actually supplied (w1 - w0 in floating point)
-        obj = torchsde.BrownianTree(t0=cfg["t0"], w0=w0, t1=cfg["t1"], w1=w1, entropy=cfg["entropy"], tol=cfg["tol"])
+        obj = torchsde.BrownianTree(t0=cfg["t0"], w0=w0.clone(), t1=cfg["t1"], w1=None if w1 is None else w1.clone(),
+                                    entropy=cfg["entropy"], tol=cfg["tol"])
         interval = obj._interval
         base = obj
     else:
@@ -290,18 +313,20 @@ def build(cfg, torchsde, torch):
     have_A = cfg["levy"] in ("davie", "foster") and wrapper in ("interval", "reverse", "reverse2")
 
     def bm(ta, tb):
+        # every tensor is cloned before the harness keeps it: a returned tensor may be (and for single-node queries is) the
+        # very object the Brownian tree holds, and a reference to it would silently follow any later in-place change
         if ta is None:
             # point evaluation
             if wrapper in ("reverse", "reverse2"):
-                return interval(cfg["t0"], tb), None, None
-            return base(tb), None, None
+                return interval(cfg["t0"], tb).clone(), None, None
+            return base(tb).clone(), None, None
         if have_A:
             w, u, a = base(ta, tb, return_U=True, return_A=True)
-            return w, u, a
+            return w.clone(), u.clone(), a.clone()
         if have_H:
             w, u = base(ta, tb, return_U=True)
-            return w, u, None
-        return base(ta, tb), None, None
+            return w.clone(), u.clone(), None
+        return base(ta, tb).clone(), None, None
 
     meta = {"have_H": have_H, "have_A": have_A, "W": W, "H": H, "base": base,
             "w0": w0 if wrapper in ("path", "tree") else None}
